@@ -29,7 +29,9 @@ ANCHOR = "RegularizedPtychographicOperator"
 OPERATORS = ["RegularizedPtychographicOperator", "SimultaneousPtychographicOperator",
              "MixedStatePtychographicOperator", "MultislicePtychographicOperator"]
 I_ATOM = "𝑖"
-VOCAB = {"exp", "angle", "abs", "absolute", "fft2", "ifft2", "conj", "conjugate", "sqrt", "real", "imag"}
+VOCAB = {"exp", "angle", "abs", "absolute", "fft2", "ifft2", "conj", "conjugate", "sqrt", "real", "imag",
+         # guards around the modulus: recognised so that a regularised division is classified (as not exact)
+         "maximum", "minimum", "clip", "where", "finfo", "eps", "dtype", "tiny", "float32", "float64"}
 
 
 def _k(p: Poly) -> str:
